@@ -645,3 +645,140 @@ def check_C02(tier, seed):
     rep.assumptions += ['audit events are recorded after one warm-up evaluation per worker (lazy imports of the first use excluded)',
                         'side channels (timing, memory) are outside the property']
     return rep.finish()
+
+
+# ---------------------------------------------------------------------------------------------
+# session layer (spec/SQSession.tla, TraceSession.tla; harness/session.py)
+# ---------------------------------------------------------------------------------------------
+SESSION_DEVS = ['ReservedNeedsLookahead', 'NotInBindsTight', 'ParenSingleParamRejected']
+
+
+def _session_mc(rep, cache_kind, maxcalls, deviations=(), expect_violation=False, label=None):
+    base = open(os.path.join(common.SPEC, 'MC_C11.cfg')).read()
+    cfg = base.replace('CacheKind = "none"', 'CacheKind = "%s"' % cache_kind).replace('MaxCalls = 3', 'MaxCalls = %d' % maxcalls)
+    if deviations:
+        cfg = cfg.replace('Deviations = {', 'Deviations = {%s, ' % ', '.join('"%s"' % d for d in deviations))
+    p = engine.write_cfg('sess_%s_%d_%s_%d.cfg' % (cache_kind, maxcalls, '_'.join(deviations), os.getpid()), cfg.splitlines())
+    res = common.run_tlc('SQSession.tla', cfg=p, workers=16, timeout=1500, env={'SOURCES_FILE': os.path.join(common.SPEC, 'session_sources.json')})
+    label = label or 'SQSession cache=%s calls<=%d %s' % (cache_kind, maxcalls, '+'.join(deviations))
+    if expect_violation:
+        rep.notes.setdefault('deviation_models', []).append({'model': label, 'violated': res.invariant_violated, 'states': res.distinct})
+        if not res.invariant_violated:
+            rep.machinery.append('%s: expected a violated invariant (vacuous model?)' % label)
+    else:
+        rep.add_tlc(res, label)
+        if res.rc != 0:
+            rep.machinery.append('%s: %s %s' % (label, res.invariant_violated, res.out[-1000:]))
+    return res
+
+
+def check_C11(tier, seed):
+    from . import session
+    quick = tier == 'quick'
+    rep = Report('C11', tier, seed)
+    devs = engine.open_deviations()
+    rep.notes['rule'] = ('TLC: SQSession - one parser over time (lexer residue, tree slot), every call = explicit Reset step + lexing from the '
+                         'residue; all sequences of <= MaxCalls calls (parse / eval / list_names complete / list_names abandoned after one '
+                         'name) over 11 sources (valid multi-line with brackets, premature end, illegal character inside brackets, unbalanced, '
+                         'syntax error on line 3, unterminated string, reserved word, ...): HistInd, ResetCovers; code: random call sequences '
+                         'on one long-lived SqParser - every call also made on a brand-new parser with equal arguments (results, messages, '
+                         'names compared) and every recorded session validated by TLC (outcome and lexer residue after each call); evals '
+                         'of several names mappings interleaved; usability after every exception')
+    _session_mc(rep, 'none', 3 if quick else 4)
+    rep.exhaustive = True
+    _session_mc(rep, 'none', 2, deviations=['MutNoParenReset'], expect_violation=True)
+    _session_mc(rep, 'none', 2, deviations=['MutNoLinenoResetInListNames'], expect_violation=True)
+    # code -> spec: recorded sessions
+    sessions, verdicts, results = session.validate_sessions(seed, 300 if quick else 3000, 6 if quick else 8)
+    for res in results:
+        rep.add_tlc(res, 'TraceSession')
+        if res.rc != 0:
+            rep.machinery.append('TraceSession failed: ' + res.out[-800:])
+    for sess, vd in verdicts:
+        rep.evaluations += 1
+        rep.distinct.add(json.dumps([(c['op'], c['text']) for c in sess]))
+        if vd is None:
+            rep.machinery.append('TraceSession dropped a session')
+        elif vd['v'] == 'accepted':
+            rep.traces += 1
+            if len(rep.samples) < 4:
+                rep.samples.append({'calls': [(c['op'], c['text']) for c in sess], 'verdict': 'accepted'})
+        elif vd['clause'] == 'residue':
+            # the residual lexer state is internal: a difference there is recorded, not reported (only results count)
+            rep.notes['sessions_with_different_lexer_residue'] = rep.notes.get('sessions_with_different_lexer_residue', 0) + 1
+        else:
+            i = vd['at'] - 1
+            rep.violation('session rejected by SQSession at call %d (%s): %r; observed %s' % (vd['at'], vd['clause'],
+                          [(c['op'], c['text']) for c in sess[:i + 1]], json.dumps(sess[i]['obs'])[:300]),
+                          {'calls': [(c['op'], c['text'], c['k']) for c in sess[:i + 1]], 'clause': vd['clause'], 'observed': sess[i]['obs']})
+    # differential: long-lived vs fresh parser
+    hist = session.run_histories(seed, 250 if quick else 3000, 6 if quick else 9)
+    ncalls = 0
+    for recs, diffs in hist:
+        ncalls += len(recs or [])
+        for d in diffs:
+            if 'harness_error' in d:
+                rep.machinery.append(d['harness_error'])
+            else:
+                rep.violation('call %d of a sequence on a long-lived parser differs from the same call on a fresh parser: %r -> long-lived %s, '
+                              'fresh %s' % (d['index'] + 1, [(c['op'], c['src']) for c in d['calls']], str(d['long_lived'])[:200], str(d['fresh'])[:200]), d)
+    rep.evaluations += ncalls
+    rep.notes['differential_calls'] = ncalls
+    # evaluations inside histories are validated against the (history-free) evaluator specification as well
+    scns = families.closure_sessions(seed + 3, 60 if quick else 600)
+    cases = [c for c in vmrun.run_scenarios(scns) if 'harness_error' not in c]
+    engine.judge_cases(rep, cases, devs, what='eval history')
+    rep.assumptions += ['random builtins are outside the property (their results depend on the global RNG by definition)',
+                        'resuming a half-consumed list_names generator after an intervening call is not judged (the property speaks of '
+                        'earlier calls)']
+    return rep.finish()
+
+
+def check_C17(tier, seed):
+    from . import session
+    quick = tier == 'quick'
+    rep = Report('C17', tier, seed)
+    rep.notes['rule'] = ('TLC: SQSession with a cache of kind dict / pre-warmed / LRU(1) / always-evicting: all sequences of <= MaxCalls calls '
+                         'over sources incl. near-duplicates differing in surrounding whitespace: Transparent (= HistInd against the '
+                         'cache-less fresh parser) and CacheKeys (exact text of successful parses only); code: a cached and an uncached '
+                         'SqParser driven in lock-step (results, errors, names), cache key set and structural snapshots of every cached '
+                         'tree before/after each eval (TreeFrozen), host mutation of returned values incl. nested containers '
+                         '(NoResultAlias); recorded cached sessions validated by TLC incl. the key set after every call')
+    for kind in ('dict', 'warm', 'lru1', 'evict'):
+        _session_mc(rep, kind, 3 if quick else 4)
+    rep.exhaustive = True
+    _session_mc(rep, 'dict', 2, deviations=['MutCacheStripKey'], expect_violation=True)
+    _session_mc(rep, 'dict', 2, deviations=['MutCacheFailures'], expect_violation=True)
+    for kind in ('dict', 'lru1', 'evict'):
+        sessions, verdicts, results = session.validate_sessions(seed + hash(kind) % 1000, 120 if quick else 1500, 6, cache_kind=kind)
+        for res in results:
+            rep.add_tlc(res, 'TraceSession cache=%s' % kind)
+            if res.rc != 0:
+                rep.machinery.append('TraceSession failed: ' + res.out[-800:])
+        for sess, vd in verdicts:
+            rep.evaluations += 1
+            rep.distinct.add(json.dumps([kind] + [(c['op'], c['text']) for c in sess]))
+            if vd is None:
+                rep.machinery.append('TraceSession dropped a session')
+            elif vd['v'] == 'accepted':
+                rep.traces += 1
+                if len(rep.samples) < 4:
+                    rep.samples.append({'cache': kind, 'calls': [(c['op'], c['text']) for c in sess], 'verdict': 'accepted'})
+            elif vd['clause'] == 'residue':
+                rep.notes['sessions_with_different_lexer_residue'] = rep.notes.get('sessions_with_different_lexer_residue', 0) + 1
+            else:
+                i = vd['at'] - 1
+                rep.violation('cached session (%s) rejected at call %d (%s): %r' % (kind, vd['at'], vd['clause'], [(c['op'], c['text']) for c in sess[:i + 1]]),
+                              {'cache': kind, 'calls': [(c['op'], c['text'], c['k']) for c in sess[:i + 1]], 'clause': vd['clause'], 'observed': sess[i]['obs']})
+    out = session.run_cache_sequences(seed, 400 if quick else 5000, 8)
+    ncalls = 0
+    for n, diffs in out:
+        ncalls += n
+        for d in diffs:
+            if 'harness_error' in d:
+                rep.machinery.append(d['harness_error'])
+            else:
+                rep.violation('cache (%s) not transparent - %s: %r' % (d.get('kind'), d.get('clause'), [(c['op'], c['src']) for c in d.get('calls', [])][-4:]), d)
+    rep.evaluations += ncalls
+    rep.notes['lockstep_calls'] = ncalls
+    return rep.finish()
